@@ -337,82 +337,85 @@ func TestC11(t *testing.T) {
 		}
 		regions := map[string]int64{}
 
-		// corpus files with a parseable structure: every offset near a
-		// structural boundary plus a stride
-		n := int64(0)
-		for _, cf := range gen.SmallCorpus(hx.Pick(3000, 60000)) {
-			p, err := fitmodel.Parse(cf.Data)
-			if err != nil {
-				continue
-			}
-			ip := fitmodel.Interpret(p.Stream, prof.Table())
-			if ip.FailRec >= 0 || len(p.Stream.Recs) < 2 || p.Stream.Recs[0].Global != 0 || len(p.Stream.Recs[1].Raw) == 0 {
-				continue
-			}
-			// file type = file_id.type field 0
-			ft := -1
-			off := 0
-			for _, fd := range p.Stream.Recs[0].Fields {
-				if fd.Num == 0 {
-					ft = int(p.Stream.Recs[1].Raw[off])
+		if hx.FirstShard() {
+			// corpus files with a parseable structure: every offset near a
+			// structural boundary plus a stride
+			n := int64(0)
+			for _, cf := range gen.SmallCorpus(hx.Pick(3000, 60000)) {
+				p, err := fitmodel.Parse(cf.Data)
+				if err != nil {
+					continue
 				}
-				off += int(fd.Size)
-			}
-			if ft < 0 {
-				continue
-			}
-			offs := map[int]bool{}
-			for _, e := range p.Layout.RecEnd {
-				for d := -3; d <= 3; d++ {
-					offs[e+d] = true
+				ip := fitmodel.Interpret(p.Stream, prof.Table())
+				if ip.FailRec >= 0 || len(p.Stream.Recs) < 2 || p.Stream.Recs[0].Global != 0 || len(p.Stream.Recs[1].Raw) == 0 {
+					continue
 				}
-			}
-			for k := 0; k < len(cf.Data); k += 97 {
-				offs[k] = true
-			}
-			for k := 0; k < 16; k++ {
-				offs[k] = true
-				offs[len(cf.Data)-k] = true
-			}
-			if rec.WantSample() && len(cf.Data) < 300 {
-				rec.Sample(map[string]any{"corpus_file": cf.Name, "bytes": len(cf.Data), "offsets": "record ends +-3, first/last 16 bytes, stride 97; x {cut, fault, fault-with-data}"})
-			}
-			var ks []int
-			for k := range offs {
-				if k >= 0 && k <= len(cf.Data) {
-					ks = append(ks, k)
+				// file type = file_id.type field 0
+				ft := -1
+				off := 0
+				for _, fd := range p.Stream.Recs[0].Fields {
+					if fd.Num == 0 {
+						ft = int(p.Stream.Recs[1].Raw[off])
+					}
+					off += int(fd.Size)
 				}
-			}
-			sort.Ints(ks)
-			var wg sync.WaitGroup
-			var mu sync.Mutex
-			workers := runtime.NumCPU()
-			for w := 0; w < workers; w++ {
-				wg.Add(1)
-				go func(w int) {
-					defer wg.Done()
-					loc := map[string]int64{}
-					for i := w; i < len(ks); i += workers {
-						k := ks[i]
-						for mode := 0; mode < 3; mode++ {
-							c := &faultCase{Streams: []*fitmodel.Stream{p.Stream}, FileTypes: []int{ft}, Chunk: mkChunk(k, k, mode)}
-							if msg, ok := check(rec, c, loc); !ok {
-								rec.Fail("corpus", "", cf.Name+": "+msg, c)
+				if ft < 0 {
+					continue
+				}
+				offs := map[int]bool{}
+				for _, e := range p.Layout.RecEnd {
+					for d := -3; d <= 3; d++ {
+						offs[e+d] = true
+					}
+				}
+				for k := 0; k < len(cf.Data); k += 97 {
+					offs[k] = true
+				}
+				for k := 0; k < 16; k++ {
+					offs[k] = true
+					offs[len(cf.Data)-k] = true
+				}
+				if rec.WantSample() && len(cf.Data) < 300 {
+					rec.Sample(map[string]any{"corpus_file": cf.Name, "bytes": len(cf.Data), "offsets": "record ends +-3, first/last 16 bytes, stride 97; x {cut, fault, fault-with-data}"})
+				}
+				var ks []int
+				for k := range offs {
+					if k >= 0 && k <= len(cf.Data) {
+						ks = append(ks, k)
+					}
+				}
+				sort.Ints(ks)
+				var wg sync.WaitGroup
+				var mu sync.Mutex
+				workers := runtime.NumCPU()
+				for w := 0; w < workers; w++ {
+					wg.Add(1)
+					go func(w int) {
+						defer wg.Done()
+						loc := map[string]int64{}
+						for i := w; i < len(ks); i += workers {
+							k := ks[i]
+							for mode := 0; mode < 3; mode++ {
+								c := &faultCase{Streams: []*fitmodel.Stream{p.Stream}, FileTypes: []int{ft}, Chunk: mkChunk(k, k, mode)}
+								if msg, ok := check(rec, c, loc); !ok {
+									rec.Fail("corpus", "", cf.Name+": "+msg, c)
+								}
 							}
 						}
-					}
-					mu.Lock()
-					for k, v := range loc {
-						regions[k] += v
-					}
-					mu.Unlock()
-				}(w)
+						mu.Lock()
+						for k, v := range loc {
+							regions[k] += v
+						}
+						mu.Unlock()
+					}(w)
+				}
+				wg.Wait()
+				n += int64(3 * len(ks))
 			}
-			wg.Wait()
-			n += int64(3 * len(ks))
+			rec.Eval("corpus", n)
+			rec.NonTrivialEnum(n)
+
 		}
-		rec.Eval("corpus", n)
-		rec.NonTrivialEnum(n)
 
 		hx.RapidCheck(t, rec, "streams", func(rt *rapid.T, fail func(string, string, any)) {
 			d := gen.D{T: rt}
